@@ -7,6 +7,7 @@ import (
 	"os/exec"
 	"path/filepath"
 	"strings"
+	"sync"
 	"time"
 )
 
@@ -108,6 +109,9 @@ func run(env *Env, chk *Check, res *Result) (int, error) {
 
 	// 2. design-level model checking, emitting behaviours
 	var cases []Case
+	// the TLC runs of the selected configurations are independent: up to three at a time; their results
+	// are then processed in the declared order (the case generators draw from one seeded source)
+	var selected []Design
 	for _, d := range chk.Designs {
 		if d.Tier != "" && d.Tier != env.Tier {
 			continue
@@ -115,17 +119,40 @@ func run(env *Env, chk *Check, res *Result) (int, error) {
 		if os.Getenv("VERIF_DEV_SKIP_DESIGN") != "" { // development aid only, never set by registered commands
 			continue
 		}
+		selected = append(selected, d)
+	}
+	type designResult struct {
+		st  TLCStats
+		err error
+	}
+	results := make([]designResult, len(selected))
+	sem := make(chan struct{}, 3)
+	var wg sync.WaitGroup
+	for di, d := range selected {
 		emit := filepath.Join(env.Tmp, "emit-"+d.Name+".ndjson")
 		os.Remove(emit)
 		r := TLCRun{Dir: env.SpecDir, Module: d.Module, Cfg: d.Cfg, Workers: d.Workers, XmxMB: d.XmxMB, Timeout: d.Timeout,
-			Coverage: d.Coverage, Env: []string{"VERIF_EMIT=" + emit}, Simulate: d.Simulate, Depth: d.Depth, Seed: env.Seed}
+			Coverage: d.Coverage, Env: []string{"VERIF_EMIT=" + emit}, Simulate: d.Simulate, Depth: d.Depth, Seed: env.Seed,
+			Meta: filepath.Join(env.Tmp, fmt.Sprintf("meta-design-%d", di))}
 		if r.Workers == 0 {
 			r.Workers = 16
 		}
 		if r.XmxMB == 0 {
 			r.XmxMB = 8000
 		}
-		st, err := r.Run()
+		wg.Add(1)
+		go func(di int, r TLCRun) {
+			defer wg.Done()
+			sem <- struct{}{}
+			defer func() { <-sem }()
+			st, err := r.Run()
+			results[di] = designResult{st, err}
+		}(di, r)
+	}
+	wg.Wait()
+	for di, d := range selected {
+		emit := filepath.Join(env.Tmp, "emit-"+d.Name+".ndjson")
+		st, err := results[di].st, results[di].err
 		if err != nil {
 			return 2, MachineryError{err.Error()}
 		}
